@@ -96,6 +96,9 @@ func H_C18_discover() {
 		if c18Idx[ni[i]] != "" {
 			if nondetBool() {
 				c18.files["/etc/nri/conf.d/"+c18Names[ni[i]]+".conf"] = "CFG-full-" + c18Names[ni[i]]
+				if nondetBool() {
+					c18.files["/etc/nri/conf.d/"+c18Names[ni[i]]+".conf"] = "" // an existing, empty drop-in
+				}
 			}
 			if nondetBool() {
 				c18.files["/etc/nri/conf.d/"+c18Base[ni[i]]+".conf"] = "CFG-base-" + c18Base[ni[i]]
